@@ -10,6 +10,7 @@
     * `accepted_sound_counterexample_shared` the same prime in Q and P accepted
     * `rejected_no_panic_counterexample_panic` negative root order ⇒ `1 << negative` panics
     * `rejected_no_panic_counterexample_hang`  root order ≥ 2^64 ⇒ the generator never returns
+    * `bgv_qmul_counterexample`               bgv's auxiliary basis QMul can contain the primes of Q
     * `genModuli_spec_counterexample`         GenModuli(17,[16]) returns 65537 (not 1 mod 2^17)
     * `exported_above_table`                  three shipped bootstrapping sets are above the table
 -/
@@ -211,6 +212,40 @@ theorem rejected_no_panic_partial (o : Oracle) (fuel : Nat) (lit : Literal)
 
 example : (0 : Int) ≤ max ((10 : Int) + (if (0 : Nat) = 0 then 1 else 2)) 0 := by decide
 
+/-! ## bgv: checks on the plaintext modulus and the auxiliary basis -/
+
+/-
+  Full-strength statement: `bgvNew o fuel a t = .ok b →` (t prime, coprime to Q, `t ≡ 1 mod 2·nT`,
+  `nT` a ring degree ≥ 8) `∧ ∀ m ∈ b.qMul, m ∉ a.q` (the auxiliary basis of the scale-invariant
+  multiplication is coprime to Q).  The last conjunct is FALSE of the code (counterexample below).
+-/
+
+/-- **bgv_accepted_partial** — `bgv.NewParameters` accepts `t` only if `t ≠ 0`, `t ∉ Q`, `t ≤ Q[0]`,
+    `t` is prime, the plaintext ring degree `nT = min(N, order/2) ≥ 8` with `t ≡ 1 mod 2·nT`
+    (so `t` need *not* be `1 mod 2N`: the plaintext ring is then smaller), and the auxiliary basis
+    consists of distinct primes `≡ 1 mod 2N`.  Gap: nothing relates the auxiliary basis to Q. -/
+theorem bgv_accepted_partial (o : Oracle) (ho : PrimeSound o) (fuel : Nat) (a : Accepted) (t : Nat)
+    (b : BgvAccepted) (h : bgvNew o fuel a t = .ok b) :
+    Nat.Prime t ∧ t ∉ a.q ∧ t ≤ a.q.headD 0 ∧ 8 ≤ b.nT ∧ b.nT ≤ a.n ∧ t &&& (2 * b.nT - 1) = 1 ∧
+    b.qMul.Nodup ∧ ∀ m ∈ b.qMul, Nat.Prime m ∧ m &&& (2 * a.n - 1) = 1 := by
+  obtain ⟨_, h2, h3, h4, _, h6, h7, h8, h9, _, h11⟩ := bgvNew_ok h
+  refine ⟨ho t h4, h2, h3, h7, by rw [h6]; exact Nat.min_le_left _ _, h8, h9,
+    fun m hm => ⟨ho m (h11 m hm).1, (h11 m hm).2⟩⟩
+
+/-- **bgv_qmul_counterexample** — with Q made of the first 61-bit primes below `2^61` that are
+    `1 mod 2N` (what `GenModuli`/users pick for 61-bit moduli), the auxiliary basis generated by
+    `bgv.NewParameters` *contains Q*: the "extended basis" of `MulScaleInvariant` is not a basis. -/
+theorem bgv_qmul_counterexample :
+    bgvNew exactOracle 100000
+        { logN := 6, q := [2305843009213689601, 2305843009213689089], p := [], ringType := 0 } 65537
+      = .ok { nT := 64, qMul := [2305843009213689601, 2305843009213689089, 2305843009213687297] } := by
+  decide +kernel
+
+/-- non-vacuity of `bgv_accepted_partial` with a plaintext modulus that is *not* `1 mod 2N`
+    (`t = 17`, `2N = 128`): accepted with the plaintext ring degree 8 -/
+example : bgvNew exactOracle 100000 { logN := 6, q := [786433], p := [], ringType := 0 } 17
+    = .ok { nT := 8, qMul := [2305843009213689601] } := by decide +kernel
+
 /-! ## genModuli_spec -/
 
 /-- **genModuli_spec** — if `GenModuli(L, logQ, logP)` returns `(q, p)` then, provided the primality
@@ -371,6 +406,8 @@ end Lattigo.Params
 #print axioms Lattigo.Params.rejected_no_panic_counterexample_panic
 #print axioms Lattigo.Params.rejected_no_panic_counterexample_hang
 #print axioms Lattigo.Params.rejected_no_panic_partial
+#print axioms Lattigo.Params.bgv_accepted_partial
+#print axioms Lattigo.Params.bgv_qmul_counterexample
 #print axioms Lattigo.Params.genModuli_spec
 #print axioms Lattigo.Params.genModuli_spec_counterexample
 #print axioms Lattigo.Params.exported_within_table
